@@ -17,6 +17,7 @@ import itertools
 import json
 import shutil
 import unittest.mock as mock
+import warnings
 from concurrent.futures import Future
 from pathlib import Path
 
@@ -31,12 +32,12 @@ _real_wait = concurrent.futures.wait
 class PFuture(Future):
     def result(self, timeout=None):
         if not self.done():
-            self._owner.flush()
+            self._owner.flush([self])
         return super().result(timeout)
 
     def exception(self, timeout=None):
         if not self.done():
-            self._owner.flush()
+            self._owner.flush([self])
         return super().exception(timeout)
 
 
@@ -44,9 +45,12 @@ class PermExecutor:
     """submit() only queues; the queued tasks run — in the chosen permutation — when somebody first
     waits for one of them (future.result(), wait(), shutdown / context exit)."""
 
-    def __init__(self, order=None, rng=None):
+    def __init__(self, order=None, rng=None, selective=False):
         self.order = order
         self.rng = rng
+        # selective: waiting for some futures runs *only their* tasks (the most adversarial legal schedule: every
+        # other task is still pending when the wait returns); shutdown / context exit runs what is left
+        self.selective = selective
         self.pending = []
         self.submitted = []     # (fn, args, kwargs) in submission order
         self.ran = []           # submission indices in execution order
@@ -59,7 +63,23 @@ class PermExecutor:
         self.submitted.append((fn, args, kwargs))
         return f
 
-    def flush(self):
+    def flush(self, only=None):
+        if only is not None and self.selective:
+            wanted = {id(f) for f in only}
+            batch = [t for t in self.pending if id(t[1]) in wanted]
+            self.pending = [t for t in self.pending if id(t[1]) not in wanted]
+            order = [i for i in (self.order or []) if i < len(self.submitted)]
+            rank = {idx: r for r, idx in enumerate(order)}
+            batch.sort(key=lambda t: rank.get(t[0], len(rank) + t[0]))
+            for idx, f, fn, a, kw in batch:
+                if not f.set_running_or_notify_cancel():
+                    continue
+                self.ran.append(idx)
+                try:
+                    f.set_result(fn(*a, **kw))
+                except BaseException as e:  # noqa: BLE001
+                    f.set_exception(e)
+            return
         while self.pending:
             batch, self.pending = self.pending, []
             k = len(batch)
@@ -93,18 +113,21 @@ class PermExecutor:
 
 def pwait(fs, timeout=None, return_when=concurrent.futures.ALL_COMPLETED):
     fs = list(fs)
+    owners = {}
     for f in fs:
         o = getattr(f, "_owner", None)
         if o is not None:
-            o.flush()
+            owners.setdefault(id(o), (o, []))[1].append(f)
+    for o, mine in owners.values():
+        o.flush(mine)
     return _real_wait(fs, timeout=timeout, return_when=return_when)
 
 
 class patched_pool:
     """context manager: tensordict's ThreadPoolExecutor / wait replaced by the permuting executor"""
 
-    def __init__(self, order=None, rng=None):
-        self.order, self.rng = order, rng
+    def __init__(self, order=None, rng=None, selective=False):
+        self.order, self.rng, self.selective = order, rng, selective
         self.executors = []
 
     def __enter__(self):
@@ -112,7 +135,7 @@ class patched_pool:
         import tensordict.base as B
 
         def factory(*a, **k):
-            ex = PermExecutor(self.order, self.rng)
+            ex = PermExecutor(self.order, self.rng, self.selective)
             self.executors.append(ex)
             return ex
 
@@ -277,7 +300,7 @@ def run_apply(run, drv):
             run.oracle_ok("apply_threads_eq_sequential")
     run.sample({"stream": "apply", "case": reqs[len(reqs) // 2], "model": answers[len(reqs) // 2]})
     # real executor, named / nested_keys / inplace variants: oracle only
-    for it in range(40 if quick else 400):
+    for it in range(80 if quick else 600):
         t = number_tree(gen_tree(rng, 9))
         k = count_leaves(t)
         if k == 0:
@@ -285,7 +308,8 @@ def run_apply(run, drv):
         none_vals = tuple(sorted(rng.sample(range(k), rng.randint(0, k)))) if rng.random() < 0.6 else ()
         fe = rng.choice([False, True, None])
         nt = rng.choice([1, 2, 4, 8])
-        variant = rng.choice(["plain", "named", "nested_keys", "inplace"])
+        variant = rng.choice(["plain", "named", "nested_keys", "inplace", "others", "others-default", "out", "call_on_nested"])
+        shuffled = rng.random() < 0.5     # permuting executor with a random completion order instead of the real pool
         delays = {v: rng.choice([0, 0, 0.001, 0.003]) for v in range(k)}
         run.case(("apply-real", tree_sx(t), none_vals, fe, nt, variant))
         run.count("apply.real_variant", variant)
@@ -306,6 +330,40 @@ def run_apply(run, drv):
                     a, b = ta, tb
                     canon = lambda td: unordered([["raw", k2 if isinstance(k2, str) else ".".join(k2), v.reshape(-1).tolist()] for k2, v in td.items(True, True)])  # noqa: E731
                     same = same and sorted(map(str, canon(a))) == sorted(map(str, canon(b)))
+                elif variant in ("others", "others-default", "out", "call_on_nested"):
+                    import contextlib
+
+                    def other_of(tt, drop):
+                        """a second tensordict with the same structure (values + 1000), optionally without some leaves"""
+                        from tensordict import TensorDict
+                        return TensorDict({k: (torch.full((2, 1), v + 1000) if not isinstance(v, list) else other_of(v, drop))
+                                           for k, v in tt if isinstance(v, list) or v not in drop}, batch_size=[2])
+
+                    def f2(x, y, nv=none_vals):
+                        return None if int(x.reshape(-1)[0]) in nv else x * 100000 + y
+
+                    def run_one(threads):
+                        ctx = patched_pool(rng=__import__("random").Random(it)) if (shuffled and threads) else contextlib.nullcontext()
+                        with ctx:
+                            src = tree_td(t)
+                            if variant == "others":
+                                return src._fast_apply(f2, other_of(t, ()), num_threads=threads, filter_empty=fe)
+                            if variant == "others-default":
+                                drop = tuple(v for v in range(k) if v % 2 == 1)
+                                return src._fast_apply(f2, other_of(t, drop), default=torch.full((2, 1), -7), num_threads=threads, filter_empty=fe)
+                            if variant == "out":
+                                out = src.apply(lambda x: torch.zeros_like(x), filter_empty=False)
+                                src._fast_apply(lambda x: x + 3, out=out, num_threads=threads, filter_empty=False)
+                                return out
+                            return src._fast_apply(lambda x: x + 1, call_on_nested=True, num_threads=threads, filter_empty=fe)
+
+                    a, b = run_one(nt), run_one(0)
+                    raw = lambda td: None if td is None else sorted((k2 if isinstance(k2, str) else ".".join(k2), v.reshape(-1).tolist()) for k2, v in td.items(True, True))  # noqa: E731
+                    same = raw(a) == raw(b)
+                    a = b = None if (a is None and b is None) else (a, b)[0] if same else a
+                    if not same:
+                        raise AssertionError(f"values differ: {raw(run_one(nt))} vs single-threaded {raw(run_one(0))}")
+                    a, b = run_one(nt), run_one(0)
                 else:
                     a = tree_td(t)._fast_apply(functools.partial(leaf_fn, none_vals=none_vals, delays=delays), num_threads=nt, filter_empty=fe)
                     b = tree_td(t)._fast_apply(functools.partial(leaf_fn, none_vals=none_vals), num_threads=0, filter_empty=fe)
@@ -350,6 +408,11 @@ def listing(root: Path):
     out = []
     for p in sorted(root.rglob("*")):
         if p.is_file():
+            if p.name == "other.pickle":
+                # tensorclass / NonTensorData: pickle of the fields that are not json-serialisable *when the metadata task runs*
+                # (`_metadata` holds a Path once the caller went on): present or not depending on timing, never changes
+                # what is loaded (see REPORT_C10 §4); not compared
+                continue
             b = p.read_bytes()
             if p.name == "meta.json":
                 out.append([str(p.relative_to(root)), "json", json.dumps(json.loads(b), sort_keys=True)])
@@ -472,9 +535,107 @@ def run_writers(run, drv):
         shutil.rmtree(root, ignore_errors=True)
 
 
+def listing_core(root: Path):
+    """data files with their bytes, metadata files by name only (the auxiliary fields of a tensorclass / NonTensorData
+    meta.json — `_metadata`, `_is_non_tensor` — depend on when the metadata task runs; what is *loaded* is compared separately)"""
+    out = []
+    for item in listing(root):
+        out.append([item[0], "json"] if item[1] == "json" else item)
+    return out
+
+
+def run_return_early(run):
+    """`memmap_/memmap/memmap_like(num_threads>1, return_early=True)` return a TensorDictFuture: `.result()` must hand the
+    tensordict back only once **every** submitted writer task has completed. The executor runs *only* the tasks somebody
+    waits for (the most adversarial legal schedule), so a task that is submitted but not among the awaited futures is
+    still pending — and its file missing — when `result()` returns."""
+    from tensordict import LazyStackedTensorDict, NonTensorData, TensorDict
+    import c11_trips
+    rng = run.rng
+    quick = run.tier == "quick"
+    root = BUILD / "tmp" / f"c12e_{run.seed}_{run.tier}"
+    shutil.rmtree(root, ignore_errors=True)
+    root.mkdir(parents=True, exist_ok=True)
+    P = c11_trips.tc_cls()
+
+    def t(shape, v, dt=torch.float32):
+        n = 1
+        for x in shape:
+            n *= x
+        return (torch.arange(n, dtype=torch.float64) + v).to(dt).reshape(shape)
+
+    def mk(kind):
+        b = [3]
+        if kind == "plain":
+            return TensorDict({"a": t([3, 2], 1), "b": t([3], 2, torch.int64)}, b)
+        if kind == "nested":
+            return TensorDict({"a": t([3, 2], 1), "n": {"x": t([3], 2, torch.int64), "m": {"z": t([3, 1], 3)}}}, b)
+        if kind == "tensorclass":
+            return TensorDict({"obs": t([3, 2], 1), "sample": P(u=t([3, 2], 4), v=t([3], 5, torch.int16), tag="T", batch_size=b)}, b)
+        if kind == "tensorclass-nested":
+            return TensorDict({"obs": t([3, 2], 1), "n": {"sample": P(u=t([3, 2], 4), v=t([3], 5, torch.int16), tag="T", batch_size=b), "y": t([3], 6)}}, b)
+        if kind == "tensorclass-root":
+            return P(u=t([3, 2], 4), v=t([3], 5, torch.int16), tag="T", batch_size=b)
+        if kind == "nontensor":
+            return TensorDict({"a": t([3, 2], 1), "s": NonTensorData("hello", batch_size=b), "n": {"q": NonTensorData("x", batch_size=b), "y": t([3], 6)}}, b)
+        if kind == "lazy":
+            return TensorDict({"a": t([3], 1), "l": LazyStackedTensorDict(*[TensorDict({"x": t([2], 10 * i)}, []) for i in range(3)], stack_dim=0)}, b)
+        raise ValueError(kind)
+
+    kinds = ["plain", "nested", "tensorclass", "tensorclass-nested", "tensorclass-root", "nontensor", "lazy"]
+    opts = dict(lock=False, names=False, device=False)
+    from c11_canon import canon, first_diff
+    try:
+        with warnings.catch_warnings():
+            warnings.simplefilter("ignore")
+            for ki, kind in enumerate(kinds):
+                for api in ("memmap_", "memmap", "memmap_like"):
+                    ref_dir = root / f"ref_{kind}_{api}"
+                    ref = getattr(mk(kind), api)(prefix=ref_dir, num_threads=0)
+                    ref_obs = (listing_core(ref_dir), canon(TensorDict.load_memmap(ref_dir) if kind != "tensorclass-root" else P.load_memmap(ref_dir), **opts))
+                    for oi in range(2 if quick else 8):
+                        d = root / f"e_{kind}_{api}_{oi}"
+                        case = {"kind": kind, "api": api, "order_seed": oi}
+                        run.case(("return-early", kind, api, oi))
+                        run.count("return_early.kind", kind)
+                        try:
+                            with time_limit(180):
+                                src = mk(kind)
+                                n_guess = 12
+                                order = list(range(n_guess))
+                                rng.shuffle(order)
+                                with patched_pool(order=order, selective=True) as pp:
+                                    fut = getattr(src, api)(prefix=d, num_threads=3, return_early=True)
+                                    res = fut.result()
+                                    ex = pp.executors[0]
+                                    pending = [ex.submitted[idx] for (idx, *_rest) in ex.pending]
+                                    obs = (listing_core(d), canon(TensorDict.load_memmap(d) if kind != "tensorclass-root" else P.load_memmap(d), **opts)) if not pending else None
+                                    ex.flush()
+                            if pending:
+                                names = [getattr(fn, "__name__", "?") + ":" + str(kw.get("key", "")) for (fn, a, kw) in pending]
+                                bad = f"result() returned while {len(pending)} of {len(ex.submitted)} submitted writer tasks were not awaited (still pending): {names}"
+                            elif obs != ref_obs:
+                                bad = f"after result() the directory / loaded content differs from the single-threaded form: {first_diff(list(ref_obs), list(obs))}"
+                            else:
+                                bad = None
+                        except TimeoutError as e:
+                            raise Infra(f"memmap timed out: {e}")
+                        except Exception as e:  # noqa: BLE001
+                            bad = f"raised {type(e).__name__}: {str(e)[:150]}"
+                        if bad is None:
+                            run.oracle_ok("return_early_complete")
+                        else:
+                            run.oracle_fail("return_early_complete", case, bad, f"return_early:{kind}:{api}")
+                        shutil.rmtree(d, ignore_errors=True)
+                    shutil.rmtree(ref_dir, ignore_errors=True)
+    finally:
+        shutil.rmtree(root, ignore_errors=True)
+
+
 def run_threads(run, drv):
     import warnings
     with warnings.catch_warnings():
         warnings.simplefilter("ignore")
         run_apply(run, drv)
         run_writers(run, drv)
+        run_return_early(run)
